@@ -606,13 +606,18 @@ pub(crate) fn add(ctx: &mut TulispContext) {
     fn dotimes(ctx: &mut TulispContext, args: &TulispObject) -> Result<TulispObject, Error> {
         destruct_bind!((spec &rest body) = args);
         destruct_bind!((var count &optional result) = spec);
+        let count = count.as_int()?;
         var.set_scope(TulispObject::from(0))?;
-        for counter in 0..count.as_int()? {
+        let mut loop_res = Ok(());
+        for counter in 0..count {
             var.set_unchecked(TulispObject::from(counter));
-            let eval_res = ctx.eval_progn(&body);
-            eval_res?;
+            if let Err(e) = ctx.eval_progn(&body) {
+                loop_res = Err(e);
+                break;
+            }
         }
         var.unset()?;
+        loop_res?;
         ctx.eval(&result)
     }
     intern_set_func!(ctx, dotimes);
